@@ -63,6 +63,9 @@ type SimTask struct {
 	EnvID                         string
 	Messages                      []string // events of commands received (CONFIGURE, START, ...)
 	LaunchOrder                   int
+	// Args keeps, per transition event, the `arguments` of the last command of that kind
+	// this task's executor received (nil map until the first one arrives).
+	Args map[string]map[string]string
 }
 
 // CallRec is one call the framework made.
@@ -419,6 +422,14 @@ func (m *Master) message(fid string, msg *scheduler.Call_Message) (mesos.Respons
 			return nullResp{}, nil
 		}
 		t.Messages = append(t.Messages, cmd.Event)
+		if t.Args == nil {
+			t.Args = map[string]map[string]string{}
+		}
+		args := map[string]string{}
+		for k, v := range cmd.Arguments {
+			args[k] = v
+		}
+		t.Args[cmd.Event] = args
 		switch o := m.Behaviour(t, cmd.Event); o {
 		case Undeliverable:
 			r.Detail += " (undeliverable)"
